@@ -16,7 +16,8 @@ LEAN_MODULES = ["Props.C17"]
 RULE = (
     "FULL ENUMERATION: files of 1-8 elements x every fault position k (and no fault) x {read, write} x file "
     "families {register, block, section} x {path, caller buffer / content} x storage {text, binary} x exception "
-    "types {ValueError, KeyError, a custom Exception subclass}. The k-th element's read/write raises a specific "
+    "types {ValueError, KeyError, custom Exception subclasses incl. one derived from StopIteration and one with a "
+    "non-trivial constructor}. The k-th element's read/write raises a specific "
     "exception instance. Observed with a harness-side wrapper around builtins.open (and around the StringIO/BytesIO "
     "the reading adapter creates): the exception object reaching the caller (identity), the closed flag of every "
     "handle the framework opened, the caller buffer's closed flag / tell() / contents, the file contents on disk "
@@ -36,7 +37,17 @@ class CustomFault(Exception):
     pass
 
 
-EXC = {"ValueError": ValueError, "KeyError": KeyError, "Custom": CustomFault}
+class CustomStop(StopIteration):
+    """a custom Exception subclass with an ancestry that iterator / generator machinery treats specially"""
+
+
+class CustomWithArgs(Exception):
+    def __init__(self, a, b=None):
+        super().__init__(a)
+        self.b = b
+
+
+EXC = {"ValueError": ValueError, "KeyError": KeyError, "Custom": CustomFault, "CustomStop": CustomStop, "CustomWithArgs": CustomWithArgs}
 
 
 def chunk_of(i, binary):
